@@ -58,7 +58,14 @@ func c19Profiles(tier string) []Profile {
 				Letter{"Asc(v)", func(w *harness.World) { w.Visit("x", harness.APIAscend, []byte{}, true, -1) }},
 				Letter{"Flush", func(w *harness.World) { w.Flush() }},
 				Letter{"Evict", func(w *harness.World) { w.Evict("x") }},
-				Letter{"Reopen", func(w *harness.World) { w.Reopen(true); ensureX(w) }})
+				Letter{"Reopen", func(w *harness.World) { w.Reopen(true); ensureX(w) }},
+				Letter{"RemoveColl(x)+Flush+Reopen", func(w *harness.World) {
+					// the file then ends in the smallest possible root record
+					w.RemoveCollection("x")
+					w.Flush()
+					w.Reopen(true)
+					ensureX(w)
+				}})
 			return ls
 		}}
 	conc := &WorldScenario{Name: "keyonly-readers", Mon: mon, Keys: keys,
